@@ -393,8 +393,11 @@ func arrayLabel(arr *Term) string {
 }
 
 func (ix *indexTerms) add(label string, t *Term, front bool) {
-	if label == "" || t.Sort != SInt || t.IsInt() {
+	if label == "" || t.Sort != SInt {
 		return
+	}
+	if t.IsInt() && !strings.HasSuffix(label, "$a") {
+		return // literal indices only for fixed-size array leaves (m.TransactionID[4]): elsewhere they are header offsets
 	}
 	k := label + "|" + t.String()
 	if ix.seen[k] {
@@ -415,7 +418,7 @@ func (ix *indexTerms) collectSk(t *Term) {
 			return
 		}
 		add := func(label string, i *Term) {
-			if label == "" || i.Sort != SInt || i.IsInt() || len(i.String()) > 2000 {
+			if label == "" || i.Sort != SInt || len(i.String()) > 2000 || (i.IsInt() && !strings.HasSuffix(label, "$a")) {
 				return
 			}
 			k := label + "|" + i.String()
